@@ -94,7 +94,12 @@ def random_cases(ctx, count):
             "x": x, "y": y, "p": p, "t": t, "ln": ln, "ld": ld, "rn": rn, "rd": rd, "icpt": icpt,
             "ft": "f64", "form": r.choice(["owned", "view", "fview"]),
             "maxit": 40000 if kind == "mtl" else 100000, "te": 12,
-            "lte": 0, "ue": 0}})
+            "lte": 0, "ue": 0, "off": [0] * p}})
+        if kind == "ols" and icpt and n * lim <= 120 and p <= 2:
+            # offsets for OLS (spec arithmetic of the exact solution needs a small centred Gram determinant)
+            out[-1]["inp"]["ft"] = r.choice(["f32", "f64"])
+            lst = [0, 2000, 2048, 8192, 65536] if out[-1]["inp"]["ft"] == "f32" else [0, 10 ** 5, 10 ** 7, 2 ** 30]
+            out[-1]["inp"]["off"] = [r.choice(lst) for _ in range(p)]
         if not (kind == "ols" or ln == 0 or rn == 0):
             out[-1]["inp"]["lte"] = r.randint(1, 4)
             out[-1]["inp"]["ue"] = r.choice([0, -10, -14, 10])
